@@ -183,8 +183,9 @@ async fn main() -> Result<()> {
             .map(|e| e.with_abort_on_failure(cli.abort_on_hook_failure))
     };
 
-    // Clean state files if requested (a dry run leaves them alone, like every other state file)
-    if cli.clean_state && !cli.dry_run {
+    // Clean state files if requested (a dry run leaves them alone, like every other state file,
+    // and so does --verify-only, which never modifies either tree)
+    if cli.clean_state && !cli.dry_run && !cli.verify_only {
         use sync::resume::ResumeState;
         if let Err(e) = ResumeState::delete(destination.path()) {
             tracing::warn!("Failed to clean state file: {}", e);
@@ -194,7 +195,7 @@ async fn main() -> Result<()> {
     }
 
     // Clear cache if requested (before creating engine)
-    if cli.clear_cache && !cli.dry_run {
+    if cli.clear_cache && !cli.dry_run && !cli.verify_only {
         use sync::dircache::DirectoryCache;
         if let Err(e) = DirectoryCache::delete(destination.path()) {
             tracing::warn!("Failed to clear directory cache: {}", e);
